@@ -53,6 +53,9 @@ type World struct {
 	Behav     map[string]*NodeBehaviour
 	Coop      bool // cooperative kubelet: ignore hostile knobs
 	nestSteps []string
+	// MaxLivePerNode / MaxLiveWitness: see observeLivePods
+	MaxLivePerNode int
+	MaxLiveWitness string
 	// HasOverrides: node override annotations / ExtendedDaemonsetSettings are part of this world
 	HasOverrides bool
 	Trace        []string
@@ -144,12 +147,36 @@ func (w *World) Reconcile(ctl, ns, name string) kit.Outcome {
 	}
 	w.tracef("reconcile %s %s/%s -> res=%s err=%v panic=%q calls=%d", ctl, ns, name, out.Inv.ResultStr, out.Err, out.Panic, len(out.Inv.Calls))
 	w.Mon.OnInvocation(out)
+	w.observeLivePods()
 	if out.Inv.Dead {
 		// process stop: every reconciler instance is discarded, in-memory state is lost
 		w.Ctl.Rebuild()
 		w.tracef("*** controller process restarted (in-memory state lost)")
 	}
 	return out
+}
+
+// observeLivePods tracks, after every reconcile, the largest number of live daemon pods (not
+// terminating, not Failed/Unknown/Succeeded) any node holds for one ExtendedDaemonSet: the
+// store-level form of "one pod per node", compared between faulted and failure-free runs (C11).
+func (w *World) observeLivePods() {
+	cnt := map[string]int{}
+	for _, p := range kit.Pods(w.S) {
+		name := p.Labels[v1.ExtendedDaemonSetNameLabelKey]
+		if name == "" || p.DeletionTimestamp != nil || p.Status.Phase == corev1.PodFailed || p.Status.Phase == corev1.PodUnknown || p.Status.Phase == corev1.PodSucceeded {
+			continue
+		}
+		node := kit.NodeOfPod(p)
+		if node == "" {
+			continue
+		}
+		k := p.Namespace + "/" + name + "@" + node
+		cnt[k]++
+		if cnt[k] > w.MaxLivePerNode {
+			w.MaxLivePerNode = cnt[k]
+			w.MaxLiveWitness = fmt.Sprintf("%s holds %d live pods after step %d", k, cnt[k], w.Steps)
+		}
+	}
 }
 
 // ReconcileAll reconciles every EDS, setting, PodTemplate and replica set once in a seeded
